@@ -69,7 +69,10 @@ _RAW_TEXTS = ['', ' ', '\n', 'null', 'nul', '{', '}', '[', ']', '[]', '{}', '[[]
               '{"jsonrpc":"2.0","method":"noargs","id":1}{"jsonrpc":"2.0","method":"noargs","id":2}',
               '[' * 64 + ']' * 64, '[' * 64, '{"a":' * 40 + '1' + '}' * 40, '1e999', '-', '0x10', '1.', '.5', '"\\ud800"', '"\\x"',
               '[{"jsonrpc":"2.0","method":"noargs","id":1},]', '{"jsonrpc":"2.0","method":"noargs","id":1,}', '[1 2]', '{"a" 1}', 'nulll',
-              '"\t"', '\r\n{}\r\n', '{"jsonrpc": "2.0", "method": "echo", "params": [1], "id": 1e2}']
+              '"\t"', '\r\n{}\r\n', '{"jsonrpc": "2.0", "method": "echo", "params": [1], "id": 1e2}',
+              # unpaired surrogates as characters of the text itself (a str can carry them; json.loads accepts them)
+              '{"jsonrpc":"2.0","method":"echo","params":["\ud800"],"id":1}', '{"jsonrpc":"2.0","method":"\udc00","id":"\udfff"}',
+              '[{"jsonrpc":"2.0","method":"noargs","id":"\ud83d"}]', '\ud800', '"\udc00"', '{"jsonrpc":"2.0","method":"ret","id":1}\udc80']
 
 
 def _near_misses(names: List[str]) -> List[str]:
@@ -186,8 +189,6 @@ class DocGen:
                 el[member] = draw(self.s_alpha)
         if huge:
             where = draw(self.s_hugewhere)
-            if huge == 'overflow' and where in ('param', 'nested'):
-                where = 'id'      # a non-finite float inside params would come back through the echo methods (C01's proviso)
             if where == 'id':
                 el['id'] = PLACEHOLDER
             elif where == 'param':
